@@ -199,6 +199,7 @@ func init() {
 			if c.Thorough() {
 				k, kb, t = 4, 3, 6
 			}
+			c.ParseKind = "c15"
 			forEachParseInput(c, k, kb, t, false, func(label, base, input string) {
 				c.Eval()
 				f := c15Eval(base, input)
